@@ -197,7 +197,8 @@ def execute(case):
                 continue
             log.add('out', name, len(recs))
             # per-job exactly-once ownership (observed before the merge)
-            if mode.get('mp') and not mode.get('real_pool'):
+            if mode.get('mp') and not mode.get('real_pool') and res.get('jobs'):     # (no job observations = the pool seam was not effective)
+                probe('simpool_seam_effective')
                 owner = collections.Counter()
                 for j in res.get('jobs', []):
                     for (c, s, e, fs, fe) in j['regions']:
